@@ -66,6 +66,9 @@ class Concatenate(ArrayExpr):
         )
 
     def _layer(self) -> dict:
+        graph = self._graph_if_unlowered()
+        if graph is not None:
+            return graph
         axis = self.axis
         cum_dims = [0] + list(accumulate(add, [len(a.chunks[axis]) for a in self.args]))
         keys = list(product([self._name], *[range(len(bd)) for bd in self.chunks]))
